@@ -119,8 +119,22 @@ func (c *Ctx) c16Run(p c16Producer, ctx string) (string, c16Obs) {
 	return src, c16Obs{out: r.Out, class: r.Class(), diag: run.FirstLine(r.Err), line: run.DiagLine(r.Err)}
 }
 
-func (c *Ctx) c16Group(s *Sub, sub, valueName string, producers []c16Producer, contexts []string, k *int64) {
+// c16Layouts: every context as written (one line) and with a line break in
+// front of every hole, so that the produced value sits on a later line than
+// the operator or call it feeds (ধরি declarations stay on one line).
+func c16Layouts(contexts []string) []string {
+	var out []string
 	for _, ctx := range contexts {
+		out = append(out, ctx)
+		if !strings.Contains(ctx, bn.KwVar) && strings.Contains(ctx, " %s") {
+			out = append(out, strings.ReplaceAll(ctx, " %s", "\n%s"))
+		}
+	}
+	return out
+}
+
+func (c *Ctx) c16Group(s *Sub, sub, valueName string, producers []c16Producer, contexts []string, k *int64) {
+	for _, ctx := range c16Layouts(contexts) {
 		*k++
 		if !c.Mine(*k) {
 			continue
